@@ -41,6 +41,8 @@ def check(c: Check):
     clause_h(c)
     clause_i(c)
     clause_j(c)
+    clause_k(c)
+    clause_l(c)
     from .common import sweep_records
     sweep_records(c, 'C07-rec', ['exactly_lib.section_document', 'exactly_lib.util.line_source'], floor=8)
 
@@ -600,3 +602,98 @@ def _mentions_sym(v, target, trace, depth=0) -> bool:
             if isinstance(y, Sym) and _mentions_sym(y, target, trace, depth + 1):
                 return True
     return False
+
+
+# ---------------------------------------------------------------- k
+def clause_k(c: Check):
+    """the text an instruction element carries is the text the parser consumed: `parse_and_compute_source` takes it
+    as the prefix `B[:len(B) - len(<what remains after the parse>)]` of the value B that *was* the remaining source
+    before the parse - the text sliced and the text whose length is the minuend are one and the same value, both
+    lengths are lengths of the remaining source (affine check on the values of the path: a length "computed without
+    a copy" from the whole source and a column, sliced off another string, shifts and cuts the recorded text as soon
+    as an instruction does not start in column 0 - a description on the same line)"""
+    from ..absint import Interp, Hooks, Sym, K
+    ix, fo = c.ix, c.fo
+    f = ix.func('exactly_lib.section_document.element_parsers.section_element_parsers:parse_and_compute_source')
+    sp = [p.arg for p in f.positional_params() if p.arg == 'source']
+    c.require(sp, 'C07-k: the source parameter of parse_and_compute_source not found')
+
+    class H(Hooks):
+        def inline(self, fd, st):
+            return False
+
+    def is_remaining(v, when_call_idx, before: bool, trace) -> bool:
+        """v is `<source param>.remaining_source`, read before / after the call of the instruction parser"""
+        if not (isinstance(v, Sym) and v.origin and v.origin[0] == 'attr' and v.origin[2] == 'remaining_source'):
+            return False
+        b = v.origin[1]
+        return isinstance(b, Sym) and bool(b.origin) and b.origin[:2] == ('param', sp[0])
+
+    n = 0
+    for p in Interp(ix, fo, H()).run_function(f, {}):
+        if p.kind != 'return':
+            continue
+        # the split text: <text>.split('\\n')
+        splits = [e for e in p.calls() if isinstance(e.node.func, ast.Attribute) and e.node.func.attr == 'split']
+        c.require(len(splits) == 1, 'C07-k: the division of the instruction source into lines not found')
+        cv = splits[0].data.get('callee_val')
+        text = splits[0].data.get('recv')
+        if text is None and isinstance(cv, Sym) and cv.origin and cv.origin[0] == 'attr':
+            text = cv.origin[1]
+        n += 1
+        ok = False
+        why = 'the text is %s' % util.describe(text)
+        o = text.origin if isinstance(text, Sym) else None
+        if o and o[0] == 'index':
+            base, idx = o[1], o[2]
+            upper = idx.origin[2][0] if isinstance(idx, Sym) and idx.origin and idx.origin[0] == 'op' \
+                                        and idx.origin[1] == 'Slice' and len(idx.origin[2]) == 1 else None
+            uo = upper.origin if isinstance(upper, Sym) else None
+            if uo and uo[0] == 'op' and uo[1] == 'BinOp' and len(uo[2]) == 2:
+                l1, l2 = uo[2]
+
+                def len_arg(v):
+                    vo = v.origin if isinstance(v, Sym) else None
+                    return vo[2][0] if vo and vo[0] == 'call' and str(vo[1]).endswith('len') and len(vo[2]) == 1 else None
+
+                a1, a2 = len_arg(l1), len_arg(l2)
+                ok = a1 is not None and a1 is base and is_remaining(base, None, True, p.trace) \
+                     and a2 is not None and is_remaining(a2, None, False, p.trace) and a2 is not base
+                why = 'the text is %s[:%s - %s]' % (util.describe(base), util.describe(a1) if a1 is not None else util.describe(l1),
+                                                    util.describe(a2) if a2 is not None else util.describe(l2))
+        c.expect(ok, 'C07-k', 'instruction-source/prefix-of-what-was-remaining',
+                 'the text recorded for an instruction is not B[:len(B) - len(<remaining source after the parse>)] with B '
+                 'the remaining source before the parse (%s): the text of an instruction that does not start in '
+                 'column 0 is shifted and cut' % why, f.loc())
+    c.floor('C07-k', 'returning paths of parse_and_compute_source', n, 1)
+
+
+# ---------------------------------------------------------------- l
+def clause_l(c: Check):
+    """PLUMB "an error is located where its source is": every `FileSourceError(<source>, .., <location>)` built from
+    the source of a caught element error (`ex.source`) takes its location from that same source
+    (`source_location_info_for(ex.source)`) - not from the line the parser happens to stand on (a description on an
+    earlier line, a later line of a multi-line instruction)"""
+    ix = c.ix
+    fse = ix.cls('exactly_lib.section_document.exceptions:FileSourceError')
+    n = 0
+    for s in util.call_sites_of(ix, fse):
+        b = util.ctor_call_args(ix, fse, s.node) or {}
+        src, loc = b.get('source'), b.get('source_location_info')
+        if src is None or loc is None:
+            continue
+        src_r = util.resolve_temp(s.func, src)
+        if not (isinstance(src_r, ast.Attribute) and src_r.attr == 'source' and isinstance(src_r.value, ast.Name)):
+            continue
+        # the name is bound by `except .. as name`
+        bs = s.func.local_bindings().get(src_r.value.id, []) if s.func is not None else []
+        if not any(x[0] == 'except' for x in bs):
+            continue
+        n += 1
+        loc_r = util.resolve_temp(s.func, loc)
+        ok = isinstance(loc_r, ast.Call) and isinstance(loc_r.func, ast.Attribute) and loc_r.func.attr == 'source_location_info_for' \
+             and len(loc_r.args) == 1 and unparse(util.resolve_temp(s.func, loc_r.args[0])) == unparse(src_r)
+        c.expect(ok, 'C07-l', 'error-located-at-its-source@%s' % s.where,
+                 'the error about %s is reported at %s: the line number and text shown are those of another line' % (
+                     unparse(src_r), unparse(loc_r)[:70]), s.loc)
+    c.floor('C07-l', 'file source errors built from a caught element error', n, 1)
